@@ -1000,7 +1000,7 @@ def run(chk):
         want = b"ERR" if r.get("err") else f64_bytes_of_bits(int(r["bits"]))
         pf_cases.append((vlib.coq_str(t), want))
         chk.count(("pf", t), nontrivial=True)
-    mism, err = vlib.coq_mismatches(chk.workdir, "pf", IMPORTS, "(fun t => f64_bytes (go_parse_float t))", pf_cases)
+    mism, err = vlib.coq_mismatches(chk.workdir, "pf", IMPORTS, "(fun t => f64_bytes (go_parse_float t))", pf_cases, shard=50)
     pf_bad = 0
     if err:
         broken.append("model evaluation failed (go_parse_float): " + err[-500:])
@@ -1018,7 +1018,7 @@ def run(chk):
         tok = vlib.b64d(r["out_b64"]).rstrip(b"\n")
         fmt_cases.append(("(%s, %s)" % (vlib.coq_str(t), vlib.coq_str(tok)), b"OK"))
         chk.count(("fmt", t), nontrivial=True)
-    mism, err = vlib.coq_mismatches(chk.workdir, "fmt", IMPORTS, "fmt_contract_ok", fmt_cases)
+    mism, err = vlib.coq_mismatches(chk.workdir, "fmt", IMPORTS, "fmt_contract_ok", fmt_cases, shard=50)
     fmt_bad = 0
     if err:
         broken.append("model evaluation failed (fmt_contract_ok): " + err[-500:])
@@ -1038,7 +1038,7 @@ def run(chk):
             continue
         v_cases.append(("(%s, %s)" % (vlib.coq_str(r["floats"][0]), vlib.coq_str(t)), b"OK"))
         chk.count(("pv", t), nontrivial=True)
-    mism, err = vlib.coq_mismatches(chk.workdir, "pv", IMPORTS, "fmt_contract_ok", v_cases)
+    mism, err = vlib.coq_mismatches(chk.workdir, "pv", IMPORTS, "fmt_contract_ok", v_cases, shard=50)
     v_bad = 0
     if err:
         broken.append("model evaluation failed (reader float text): " + err[-500:])
